@@ -7,6 +7,7 @@
 #include <math.h>
 
 __thread FILE *tr;
+static FILE *tr_main;
 mpz_t Zp[NZ]; mpq_t Qp[NQ]; mpf_t Fp[NF]; gmp_randstate_t Rp[NR];
 int zlive[NZ], qlive[NQ], flive[NF], rlive[NR];
 long n_events, n_calls;
@@ -93,6 +94,7 @@ static void on_signal(int sig) {
   if (sig == SIGFPE && rec_jmp_armed) { rec_jmp_armed = 0; siglongjmp(rec_jmp, sig); }
   /* anything else is fatal: log and leave so the trace is not truncated mid-line */
   if (tr_real && tr != tr_real) tr = tr_real;
+  if (rec_threaded && tr_main) tr = tr_main;          /* a worker thread died: report it in the main trace */
   fprintf(tr, "{\"e\":\"crash\",\"sig\":%d,\"in\":", sig); j_str(last_begin); fprintf(tr, "}\n");
   fflush(tr); _exit(0);
 }
@@ -116,7 +118,7 @@ void rec_init(const char *path) {
   struct sigaction sa;
   tr = path && strcmp(path, "-") ? fopen(path, "w") : stdout;
   if (!tr) { perror(path); exit(3); }
-  setvbuf(tr, NULL, _IOFBF, 1 << 20);
+  setvbuf(tr, NULL, _IOFBF, 1 << 20); tr_main = tr;
   mp_set_memory_functions(ra_alloc, ra_realloc, ra_free);
 #ifdef MPIR_VERIF
   __mpir_verif_ev = hook_cb;
